@@ -4,7 +4,7 @@
    wf x: BINT_SIZE limbs, each in [0, 2^BINT_WORDBITS);  uval: unsigned value;  sval: two's
    complement value;  all arithmetic is exact arithmetic reduced mod 2^BINT_BITS. *)
 From C17 Require Import Model Model2 Model3 Proofs ProofsLib ProofsArith ProofsBits ProofsConv ProofsShift
-  ProofsMisc ProofsDiv ProofsDiv2 ProofsPow.
+  ProofsMisc ProofsDiv ProofsDiv2 ProofsPow ProofsText ProofsText2 ProofsText3.
 Local Open Scope Z_scope.
 
 Theorem C17_add_exact : forall x y, wf x -> wf y ->
@@ -231,3 +231,69 @@ Theorem C17_upowmod_refuted : ~ (forall x y m, wf x -> wf y -> wf m -> uval m <>
   exists r, upowmod x y m = Ok r /\ wf r /\ uval r = (uval x ^ uval y) mod uval m).
 Proof. exact upowmod_exact_refuted. Qed.
 Print Assumptions C17_upowmod_refuted.
+
+(* ---- text.  Strings are lists of byte codes.  dval base ds = value of the digit list ds;
+   canon base ds v: ds are digits of the base, their value is v, no leading zero (single 0 for v = 0);
+   char_ok base c: c is alphanumeric with digit value cval c < base; sign_ok: "", "-" or "+". ---- *)
+Theorem C17_tobase_exact : forall x base uo, wf x -> 2 <= base <= 36 ->
+  let unsigned := match uo with Some u => u | None => negb (base =? 10) end in
+  exists ds, tobase x base uo = Ok ((if negb unsigned && (sval x <? 0) then [45] else []) ++ map digit_char ds) /\
+             canon base ds (if unsigned then uval x else Z.abs (sval x)).
+Proof. exact tobase_correct. Qed.
+Print Assumptions C17_tobase_exact.
+
+Theorem C17_frombase_exact : forall base sg cs, 2 <= base <= 36 -> sign_ok sg -> cs <> [] -> Forall (char_ok base) cs ->
+  exists x, frombase (sg ++ cs) base = Ok x /\ wf x /\
+            uval x = (sign_val sg * dval base (map cval cs)) mod 2 ^ BINT_BITS.
+Proof. exact frombase_correct. Qed.
+Print Assumptions C17_frombase_exact.
+
+Theorem C17_text_badbase : forall x s base uo, ~ (2 <= base <= 36) ->
+  tobase x base uo = Err ENone /\ frombase s base = Err ENone.
+Proof. exact (fun x s base uo H => conj (tobase_badbase x base uo H) (frombase_badbase s base H)). Qed.
+Print Assumptions C17_text_badbase.
+
+(* for all bases 2..36 and every signedness flag: reading back what tobase wrote gives the same bint *)
+Theorem C17_text_roundtrip : forall x base uo, wf x -> 2 <= base <= 36 ->
+  exists s, tobase x base uo = Ok s /\ frombase s base = Ok x.
+Proof. exact frombase_tobase. Qed.
+Print Assumptions C17_text_roundtrip.
+
+(* bn.lua: integer literals in bases 2 / 16 / 10 *)
+Theorem C17_literal_bin_exact : forall neg cs, Forall (char_ok 2) cs ->
+  exists x, bn_from_bin neg cs = Ok x /\ wf x /\ uval x = ((if neg then -1 else 1) * dval 2 (map cval cs)) mod 2 ^ BINT_BITS.
+Proof. exact from_bin_correct. Qed.
+Print Assumptions C17_literal_bin_exact.
+
+Theorem C17_literal_hex_exact : forall neg cs, cs <> [] -> Forall (char_ok 16) cs ->
+  exists x, bn_from_hex neg cs = Ok x /\ wf x /\ uval x = ((if neg then -1 else 1) * dval 16 (map cval cs)) mod 2 ^ BINT_BITS.
+Proof. exact from_hex_correct. Qed.
+Print Assumptions C17_literal_hex_exact.
+
+Theorem C17_literal_dec_exact : forall sg cs, sign_ok sg -> cs <> [] -> Forall (char_ok 10) cs ->
+  exists x, bn_from_dec (sg ++ cs) = Ok x /\ wf x /\ uval x = (sign_val sg * dval 10 (map cval cs)) mod 2 ^ BINT_BITS.
+Proof. exact from_dec_correct. Qed.
+Print Assumptions C17_literal_dec_exact.
+
+(* bn.lua: todecint / tohexint / tobinint (bits = nil or a Lua integer: wrap to that many bits first) *)
+Theorem C17_todecint_exact : forall v, wf v ->
+  exists ds, todecint v = Ok ((if sval v <? 0 then [45] else []) ++ map digit_char ds) /\ canon 10 ds (Z.abs (sval v)).
+Proof. exact todecint_correct. Qed.
+Print Assumptions C17_todecint_exact.
+
+Theorem C17_tohexint_exact : forall v bits, wf v -> (forall b, bits = Some b -> in_i64 b) ->
+  exists ds, tohexint v bits = Ok (map digit_char ds) /\
+    canon 16 ds (match bits with None => uval v | Some b => if b <=? 0 then 0 else uval v mod 2 ^ b end).
+Proof. exact tohexint_correct. Qed.
+Print Assumptions C17_tohexint_exact.
+
+Theorem C17_tobinint_exact : forall v bits, wf v -> (forall b, bits = Some b -> in_i64 b) ->
+  exists ds, tobinint v bits = Ok (map digit_char ds) /\
+    canon 2 ds (match bits with None => uval v | Some b => if b <=? 0 then 0 else uval v mod 2 ^ b end).
+Proof. exact tobinint_correct. Qed.
+Print Assumptions C17_tobinint_exact.
+
+Theorem C17_compress_exact : forall x, wf x ->
+  compress x = if (sval x <=? maxint) && (minint <=? sval x) then inl (sval x) else inr x.
+Proof. exact compress_correct. Qed.
+Print Assumptions C17_compress_exact.
